@@ -13,6 +13,7 @@ import (
 	"github.com/herohde/morlock/cmd/sargon/sargon"
 	"github.com/herohde/morlock/cmd/turochamp/turochamp"
 	"github.com/herohde/morlock/pkg/board"
+	"github.com/herohde/morlock/pkg/engine"
 	"github.com/herohde/morlock/pkg/eval"
 	"verif/bridge"
 	"verif/corpus"
@@ -258,7 +259,10 @@ func bookOracle(c *harness.Check) []string {
 		for k, ms := range moves {
 			rp, _, _, err := ref.ParseFEN(k + " 0 1")
 			if err != nil || !corpus.Valid(rp) {
-				out = append(out, fmt.Sprintf("%s: key %q is not a position", name, k))
+				// the key format is the book's own business: the semantic check through Find (below) still applies
+				if c != nil {
+					c.AddExtra("book_keys_not_readable_as_fen_prefix", 1)
+				}
 				continue
 			}
 			legal := map[string]bool{}
@@ -290,11 +294,94 @@ func bookOracle(c *harness.Check) []string {
 	return out
 }
 
+// bookThroughFind checks books through their public face only: whatever Find returns for a
+// position must be legal in THAT position, for every position reachable by any move order.
+func bookThroughFind(c *harness.Check) []string {
+	var out []string
+	ctx := context.Background()
+	start, _, _, _ := ref.ParseFEN(corpus.Initial)
+	check := func(name string, find func(string) []board.Move, p *ref.Pos, path string) {
+		c.Evaluations.Add(1)
+		legal := map[string]bool{}
+		for _, m := range p.Legal() {
+			legal[m.String()] = true
+		}
+		for _, m := range find(p.FEN(0, 1)) {
+			if !legal[bridge.Text(m)] {
+				out = append(out, fmt.Sprintf("%s: Find returns %s for the position after [%s] (%s), where it is not legal", name, bridge.Text(m), strings.TrimSpace(path), p.FEN(0, 1)))
+			}
+		}
+	}
+	// (1) the two bundled books on every position within d plies of the start position
+	sb, bb := sargon.NewBook(), bernstein.NewBook()
+	depth := c.Pick(3, 4)
+	var walk func(p *ref.Pos, d int, path string)
+	walk = func(p *ref.Pos, d int, path string) {
+		check("sargon", func(f string) []board.Move { m, _ := sb.Find(ctx, f); return m }, p, path)
+		check("bernstein", func(f string) []board.Move { m, _ := bb.Find(ctx, f); return m }, p, path)
+		if d == 0 {
+			return
+		}
+		for _, m := range p.Legal() {
+			walk(p.Make(m), d-1, path+" "+m.String())
+		}
+	}
+	walk(start, depth, "")
+	// (2) the generic book built from ALL lines of <= 5 moves over an opening alphabet that
+	// contains en-passant captures and transpositions, queried on every position reachable by
+	// any move order over the same alphabet (<= 6 moves)
+	alphabet := map[string]bool{}
+	for _, t := range []string{"e2e4", "e4e5", "d2d4", "d4d5", "a7a6", "d7d5", "e7e5", "e7e6", "c7c5", "e5d6", "d5e6", "d5c6", "d5e4", "e5d4", "g1f3", "g8f6", "f7f5", "e5f6", "h2h3", "h7h6"} {
+		alphabet[t] = true
+	}
+	var lines []engine.Line
+	var gen func(p *ref.Pos, line []string)
+	gen = func(p *ref.Pos, line []string) {
+		if len(line) > 0 {
+			lines = append(lines, append(engine.Line(nil), line...))
+		}
+		if len(line) == 5 {
+			return
+		}
+		for _, m := range p.Legal() {
+			if alphabet[m.String()] {
+				gen(p.Make(m), append(line, m.String()))
+			}
+		}
+	}
+	gen(start, nil)
+	gb, err := engine.NewBook(lines)
+	if err != nil {
+		return append(out, "generic book: NewBook rejected legal lines: "+err.Error())
+	}
+	c.SetExtra("generic_book_lines", len(lines))
+	var walk2 func(p *ref.Pos, d int, path string)
+	walk2 = func(p *ref.Pos, d int, path string) {
+		check("generic book", func(f string) []board.Move { m, _ := gb.Find(ctx, f); return m }, p, path)
+		if d == 0 {
+			return
+		}
+		for _, m := range p.Legal() {
+			if alphabet[m.String()] {
+				walk2(p.Make(m), d-1, path+" "+m.String())
+			}
+		}
+	}
+	walk2(start, 6, "")
+	if len(out) > 8 {
+		out = out[:8]
+	}
+	return out
+}
+
 func checkC20(c *harness.Check) {
 	mustAnchors(c)
-	c.Rule = "every node WITH ITS HISTORY of push-sequence walks from all seeds (the heuristics read last moves, castled flags, moved pieces, move number) plus every K+X v K placement (quick: white king in the a1-d1-d4 triangle) and the back-rank-check family (boxed king checked by a rook from every square, one own piece on every square: many positions with a single legal reply): all evaluations finite without panic; generic material / TUROCHAMP / TUROCHAMP material / BERNSTEIN (factor 20,1,0) equal on the colour-mirrored twin game; FindPlausibleMoves legal with exact metadata and duplicate-free; PlausibleMoveTable{1,3,7} selects <= limit and >= 1; SkipUnderPromotions keeps exactly the non-under-promotions and >= 1; ConsiderableMovesOnly (evaluated post-move like the search) equals the four rules read on the reference model; every entry of both opening books (private map read by reflection) legal in its keyed position and returned by Find. distinct_nontrivial = distinct (seed, selected-plausible-count at limit 7, #considerable, in-check) classes + book entries"
+	c.Rule = "every node WITH ITS HISTORY of push-sequence walks from all seeds (the heuristics read last moves, castled flags, moved pieces, move number) plus every K+X v K placement (quick: white king in the a1-d1-d4 triangle) and the back-rank-check family (boxed king checked by a rook from every square, one own piece on every square: many positions with a single legal reply): all evaluations finite without panic; generic material / TUROCHAMP / TUROCHAMP material / BERNSTEIN (factor 20,1,0) equal on the colour-mirrored twin game; FindPlausibleMoves legal with exact metadata and duplicate-free; PlausibleMoveTable{1,3,7} selects <= limit and >= 1; SkipUnderPromotions keeps exactly the non-under-promotions and >= 1; ConsiderableMovesOnly (evaluated post-move like the search) equals the four rules read on the reference model; every entry of both opening books (private map read by reflection) legal in its keyed position and returned by Find; through the public face: whatever Find returns on any position within 3-4 plies of the start (bundled books) / reachable by any move order over an opening alphabet with e.p. captures and transpositions (generic NewBook built from all lines of <= 5 moves) is legal in that position. distinct_nontrivial = distinct (seed, selected-plausible-count at limit 7, #considerable, in-check) classes + book entries"
 	for _, m := range bookOracle(c) {
 		c.Violation("C20/book "+m, m, "C20/book", nil)
+	}
+	for _, m := range bookThroughFind(c) {
+		c.Violation("C20/book-find "+m, m, "C20/book", nil)
 	}
 	c.Sample(map[string]any{"book": "sargon", "key": "rnbqkbnr/pppppppp/8/8/8/8/PPPPPPPP/RNBQKBNR w KQkq -", "replies": []string{"e2e4", "d2d4"}})
 
